@@ -8,6 +8,7 @@ require (
 	github.com/go-jose/go-jose/v3 v3.0.1-0.20221117193127-916db76e8214
 	github.com/golang/protobuf v1.5.2
 	github.com/google/tink/go v1.7.0
+	github.com/google/uuid v1.3.0
 	github.com/hyperledger/aries-framework-go v0.3.2
 	github.com/hyperledger/aries-framework-go/component/didconfig v0.0.0
 	github.com/hyperledger/aries-framework-go/component/kmscrypto v0.0.0
@@ -18,6 +19,7 @@ require (
 	github.com/hyperledger/aries-framework-go/component/storageutil v0.0.0
 	github.com/hyperledger/aries-framework-go/component/vdr v0.0.0
 	github.com/hyperledger/aries-framework-go/spi v0.0.0
+	github.com/piprate/json-gold v0.5.1-0.20230111113000-6ddbe6e6f19f
 	golang.org/x/crypto v0.1.0
 	google.golang.org/protobuf v1.28.1
 )
@@ -34,11 +36,11 @@ require (
 	github.com/consensys/gnark-crypto v0.9.1 // indirect
 	github.com/davecgh/go-spew v1.1.1 // indirect
 	github.com/golang/snappy v0.0.4 // indirect
-	github.com/google/uuid v1.3.0 // indirect
 	github.com/hyperledger/fabric-amcl v0.0.0-20230602173724-9e02669dceb2 // indirect
 	github.com/jinzhu/copier v0.0.0-20190924061706-b57f9002281a // indirect
 	github.com/kawamuray/jsonpath v0.0.0-20201211160320-7483bafabd7e // indirect
 	github.com/kilic/bls12-381 v0.1.1-0.20210503002446-7b7597926c69 // indirect
+	github.com/klauspost/compress v1.10.0 // indirect
 	github.com/minio/blake2b-simd v0.0.0-20160723061019-3f5f724cb5b1 // indirect
 	github.com/minio/sha256-simd v0.1.1 // indirect
 	github.com/mitchellh/mapstructure v1.5.0 // indirect
@@ -49,7 +51,6 @@ require (
 	github.com/multiformats/go-multibase v0.1.1 // indirect
 	github.com/multiformats/go-multihash v0.0.13 // indirect
 	github.com/multiformats/go-varint v0.0.5 // indirect
-	github.com/piprate/json-gold v0.5.1-0.20230111113000-6ddbe6e6f19f // indirect
 	github.com/pkg/errors v0.9.1 // indirect
 	github.com/pmezard/go-difflib v1.0.0 // indirect
 	github.com/pquerna/cachecontrol v0.1.0 // indirect
@@ -68,6 +69,7 @@ require (
 	golang.org/x/exp v0.0.0-20230728194245-b0cb94b80691 // indirect
 	golang.org/x/sys v0.2.0 // indirect
 	gopkg.in/yaml.v3 v3.0.1 // indirect
+	nhooyr.io/websocket v1.8.3 // indirect
 	rsc.io/tmplfunc v0.0.3 // indirect
 )
 
